@@ -410,7 +410,13 @@ impl Watcher {
             // WARNING(deadlock): Don't lock `self.dbm` over the loop since `Responder::handle_breach` uses it as well.
             let uuids = self.dbm.lock().unwrap().load_uuids(locator);
             for uuid in uuids {
-                let appointment = self.dbm.lock().unwrap().load_appointment(uuid).unwrap();
+                // The database is not locked over the loop (see above), so the appointment may be gone by now: its owner
+                // can replace it through `add_appointment` in the meantime, and a replacement whose trigger is already in
+                // the cache is handled (and dropped, if invalid or rejected) on that path.
+                let appointment = match self.dbm.lock().unwrap().load_appointment(uuid) {
+                    Some(appointment) => appointment,
+                    None => continue,
+                };
                 match cryptography::decrypt(
                     appointment.encrypted_blob(),
                     &dispute_tx.compute_txid(),
